@@ -7,8 +7,10 @@ package drive
 
 import (
 	"math/rand"
+	"os"
 	"sort"
 	"strings"
+	"time"
 
 	"verifharness/trace"
 )
@@ -47,9 +49,18 @@ var Registry = map[string]*Prop{}
 
 // RunHistory executes one history and records it in the trace.
 func RunHistory(p *Prop, t *trace.T, history []string) {
+	if Hung {
+		return
+	}
 	ex := p.New()
 	for _, op := range history {
-		t.Op(op, ex.Exec(op))
+		out, ok := ExecTimed(ex, op)
+		t.Op(op, out)
+		if !ok {
+			t.Violation("no_reply", "the request never produced a reply (no answer within "+OpTimeout.String()+"): "+op)
+			t.End(true)
+			return
+		}
 	}
 	for _, f := range ex.Findings() {
 		t.Violation(f[0], f[1])
@@ -57,13 +68,43 @@ func RunHistory(p *Prop, t *trace.T, history []string) {
 	t.End(ex.NonTrivial())
 }
 
+// OpTimeout bounds one op: every request must end with a reply. An op that does not return is
+// recorded as "hang"; the code under test may then hold locks for ever, so nothing further is run
+// in this process (Hung).
+var (
+	OpTimeout = 60 * time.Second
+	Hung      bool
+)
+
+func init() {
+	if v, err := time.ParseDuration(os.Getenv("VERIF_OP_TIMEOUT")); err == nil && v > 0 {
+		OpTimeout = v
+	}
+}
+
+// ExecTimed runs one op under OpTimeout.
+func ExecTimed(ex Executor, op string) (string, bool) {
+	if Hung {
+		return "hang", false
+	}
+	ch := make(chan string, 1)
+	go func() { ch <- ex.Exec(op) }()
+	select {
+	case out := <-ch:
+		return out, true
+	case <-time.After(OpTimeout):
+		Hung = true
+		return "hang", false
+	}
+}
+
 type base struct {
 	nontrivial bool
 	findings   [][2]string
 }
 
-func (b *base) NonTrivial() bool       { return b.nontrivial }
-func (b *base) Findings() [][2]string  { return b.findings }
+func (b *base) NonTrivial() bool        { return b.nontrivial }
+func (b *base) Findings() [][2]string   { return b.findings }
 func (b *base) flag(sig, detail string) { b.findings = append(b.findings, [2]string{sig, detail}) }
 
 func dumpMap(m map[string][]byte) string {
